@@ -125,3 +125,11 @@ func VerifC01Options(l1, l2, l3 int) {
 	verifObserveInt("encoded-len", len(b))
 	verifReach("end")
 }
+
+// VerifSmokeNew: the transaction id of New() is an environment value (arbitrary bytes).
+func VerifSmokeNew() {
+	p, err := New()
+	verifAssert(err == nil, "new-ok")
+	verifAssert(p != nil, "packet")
+	verifReach("end")
+}
